@@ -32,7 +32,11 @@ class Model:
         # ... and a private generator that only prepares the lines of the loop is fused into it
         gens = [n.iter.func.attr for n in self.f.node.body if isinstance(n, ast.For) and isinstance(n.iter, ast.Call) and isinstance(n.iter.func, ast.Attribute)
                 and isinstance(n.iter.func.value, ast.Name) and n.iter.func.value.id in ('self', 'cls') and n.iter.func.attr.startswith('_')]
-        fn, _inl = normalize.inline_helpers(self.f, only=local_defs + gens)
+        # private helper methods of the class (not the diagnostics funnel, which is recognised by name) are inlined as well
+        helpers = sorted({c.func.attr for c in ast.walk(self.f.node) if isinstance(c, ast.Call) and isinstance(c.func, ast.Attribute)
+                          and isinstance(c.func.value, ast.Name) and c.func.value.id in ('self', 'cls') and c.func.attr.startswith('_')
+                          and not c.func.attr.startswith('__') and c.func.attr != '_parse_error' and self.mod.method(self.f.cls, c.func.attr) is not None})
+        fn, _inl = normalize.inline_helpers(self.f, only=local_defs + gens + helpers)
         fn = normalize.expand_quantifiers(fn, self.mod)
         set_parents(fn)
         self.fnode = fn
